@@ -8,7 +8,8 @@ only = set(sys.argv[1:])
 bad = 0
 BENIGN = {"B01": "C06 C13 C14", "B02": "C09 C10", "B03": "C02 C14 C17", "B04": "C02 C03 C19", "B05": "C07 C08 C13", "B06": "C16 C18 C20",
           "B07": "C06 C13 C20", "B08": "C11", "B09": "C15", "B10": "C17 C16", "B11": "C05 C06", "B12": "C04 C19", "B13": "C09 C10",
-          "B14": "C02 C12 C14", "B15": "C06 C07 C08", "B16": "C13 C06 C07", "B18": "C02 C04", "B19": "C04 C05", "B21": "C06 C14", "B23": "C09", "B24": "C07 C14", "B25": "C08 C14", "B26": "C02 C04", "B28": "C05 C11", "B31": "C01 C16", "B32": "C07 C14", "B41": "C15 C16 C18", "B42": "C02 C03 C05", "B43": "C06 C07 C11", "B44": "C20 C18"}
+          "B14": "C02 C12 C14", "B15": "C06 C07 C08", "B16": "C13 C06 C07", "B18": "C02 C04", "B19": "C04 C05", "B21": "C06 C14", "B23": "C09", "B24": "C07 C14", "B25": "C08 C14", "B26": "C02 C04", "B28": "C05 C11", "B31": "C01 C16", "B32": "C07 C14", "B41": "C15 C16 C18", "B42": "C02 C03 C05", "B43": "C06 C07 C11", "B44": "C20 C18",
+          "B51": "C09 C10 C11 C06 C07 C08", "B52": "C13 C06 C07 C14 C20", "B53": "C17 C14", "B54": "C19 C02 C03 C04"}
 jobs = []
 for d in sorted(os.listdir(os.path.join(V, "seeded"))):
     m = json.load(open(os.path.join(V, "seeded", d, "meta.json")))
